@@ -21,7 +21,7 @@ type ebnfp struct {
 func ebnf(n node) string {
 	outp := []*ebnfp{}
 	switch n.(type) {
-	case *strct:
+	case *strct, *union:
 		buildEBNF(true, n, map[node]string{}, nil, &outp)
 		out := []string{}
 		for _, p := range outp {
